@@ -39,6 +39,12 @@ type Profile struct {
 	MaxSteps     int
 	MultiBias    bool // prefer multi-target Sets
 	VerdictBias  bool // reject often
+	Drain        bool // connect everything and drive to the fixed point at the end
+	Twice        bool // replay the history without injections after a reset (C07)
+	StartConn    bool // every target connected from the start
+	FaultBias    bool // many connection faults
+	DevBias      bool // many device errors
+	CleanPct     int  // percentage of histories kept away from the known value-path defects
 }
 
 type sim struct {
@@ -52,6 +58,9 @@ type sim struct {
 	rels    map[int]int // rel id -> target
 	nextRel int
 	tags    map[string]bool
+	clean   bool
+	deleted map[int][]string // per target: paths deleted so far
+	used    map[int][]string // per target: paths written so far
 }
 
 func (g *sim) do(line string) string {
@@ -73,27 +82,89 @@ func (g *sim) enqueue(ids ...string) {
 	}
 }
 
-func (g *sim) genChange() string {
+// elemPrefix: d addresses p itself or an ancestor of p at a path-element boundary
+func elemPrefix(p, d string) bool {
+	if !strings.HasPrefix(p, d) {
+		return false
+	}
+	return len(p) == len(d) || p[len(d)] == '/' || p[len(d)] == '['
+}
+
+// admissible keeps "clean" histories away from the known value-path defects: no write below a
+// path deleted earlier (or in the same request), no delete that is a textual but not an
+// element-boundary prefix of another path of the target.
+func (g *sim) admissible(t int, p string, del bool, inReq []string, inReqDel []bool) bool {
+	if !g.clean {
+		return true
+	}
+	for _, d := range g.deleted[t] {
+		if strings.HasPrefix(p, d) && p != d {
+			return false
+		}
+		if del && strings.HasPrefix(d, p) && d != p {
+			return false // deleting an ancestor of an earlier tombstone nests tombstones
+		}
+	}
+	for i, q := range inReq {
+		if inReqDel[i] && strings.HasPrefix(p, q) {
+			return false
+		}
+		if del && strings.HasPrefix(q, p) {
+			return false
+		}
+	}
+	if del {
+		for _, q := range append(append([]string{}, g.used[t]...), inReq...) {
+			if strings.HasPrefix(q, p) && !elemPrefix(q, p) {
+				return false
+			}
+		}
+	} else {
+		for _, d := range g.deleted[t] {
+			if strings.HasPrefix(p, d) && !elemPrefix(p, d) {
+				return false
+			}
+		}
+	}
+	return true
+}
+
+func (g *sim) genChange(t int) string {
 	n := g.r.Range(1, 3)
 	seen := map[string]bool{}
-	var parts []string
-	for i := 0; i < n; i++ {
-		if g.p.Deletes && g.r.Chance(1, 3) {
-			p := g.r.Pick(deletePaths)
-			if seen[p] {
-				continue
-			}
-			seen[p] = true
+	var parts, inReq []string
+	var inReqDel []bool
+	for i := 0; i < n*3 && len(parts) < n; i++ {
+		del := g.p.Deletes && g.r.Chance(1, 3)
+		var p string
+		if del {
+			p = g.r.Pick(deletePaths)
+		} else {
+			p = g.r.Pick(leafPaths)
+		}
+		if seen[p] || !g.admissible(t, p, del, inReq, inReqDel) {
+			continue
+		}
+		seen[p] = true
+		inReq = append(inReq, p)
+		inReqDel = append(inReqDel, del)
+		if del {
 			parts = append(parts, fmt.Sprintf("%s=-:d:0", hx(p)))
 			g.tags["delete"] = true
 		} else {
-			p := g.r.Pick(leafPaths)
-			if seen[p] {
-				continue
-			}
-			seen[p] = true
 			parts = append(parts, fmt.Sprintf("%s=%s:l:0", hx(p), hx(g.r.Pick(values))))
 		}
+	}
+	if len(parts) == 0 {
+		p := "/zz"
+		inReq, inReqDel = append(inReq, p), append(inReqDel, false)
+		parts = append(parts, fmt.Sprintf("%s=%s:l:0", hx(p), hx(g.r.Pick(values))))
+	}
+	for i, p := range inReq {
+		if inReqDel[i] {
+			g.deleted[t] = append(g.deleted[t], p)
+		}
+		g.used[t] = append(g.used[t], p)
 	}
 	return strings.Join(parts, ",")
 }
@@ -111,7 +182,7 @@ func (g *sim) newSet() {
 	}
 	var parts []string
 	for _, t := range perm[:k] {
-		parts = append(parts, fmt.Sprintf("%d/%s", t, g.genChange()))
+		parts = append(parts, fmt.Sprintf("%d/%s", t, g.genChange(t)))
 	}
 	ser := "0"
 	if g.p.Serializable && g.r.Chance(1, 4) {
@@ -130,7 +201,7 @@ func (g *sim) runOne(id string) {
 			args = append(args, "plugin="+g.r.Pick([]string{"bad", "none"}))
 			g.tags["verdict"] = true
 		}
-		if g.p.DevErrors && g.r.Chance(1, 5) {
+		if g.p.DevErrors && (g.r.Chance(1, 5) || (g.p.DevBias && g.r.Chance(1, 2))) {
 			d := g.r.Pick([]string{"retry", "wait", "fail:INVALID", "fail:INTERNAL", "fail:UNKNOWN", "fail:NOT_FOUND", "fail:CONFLICT", "fail:NOT_SUPPORTED", "fail:ALREADY_EXISTS", "fail:UNAUTHORIZED"})
 			args = append(args, "dev="+d)
 			g.tags["dev-"+strings.Split(d, ":")[0]] = true
@@ -198,8 +269,15 @@ func (g *sim) fault() {
 			break
 		}
 	case 4:
+		// a device restart loses its configuration and every connection to it
 		t := g.targets[g.r.Intn(len(g.targets))]
 		g.do(fmt.Sprintf("v2.fault devrestart %d", t))
+		for id, rt := range g.rels {
+			if rt == t {
+				delete(g.rels, id)
+			}
+		}
+		g.enqueue(fmt.Sprintf("mast:%d", t))
 		g.tags["devrestart"] = true
 	}
 }
@@ -207,7 +285,12 @@ func (g *sim) fault() {
 // Generate builds one history by driving a real system with random scheduling; the recorded
 // script is then replayed on a fresh real system and on the twin.
 func Generate(r *rng.R, p Profile) fw.Case {
-	g := &sim{r: r, p: p, real: newReal(), rels: map[int]int{}, tags: map[string]bool{}}
+	g := &sim{r: r, p: p, real: newReal(), rels: map[int]int{}, tags: map[string]bool{},
+		deleted: map[int][]string{}, used: map[int][]string{}}
+	g.clean = p.CleanPct > 0 && r.Intn(100) < p.CleanPct
+	if g.clean {
+		g.tags["clean"] = true
+	}
 	defer g.real.Close()
 	g.do("v2.reset")
 	nT := r.Range(1, p.Targets)
@@ -225,7 +308,7 @@ func Generate(r *rng.R, p Profile) fw.Case {
 	}
 	// most histories start connected
 	for _, t := range g.targets {
-		if !p.Faults || r.Chance(3, 4) {
+		if !p.Faults || p.StartConn || r.Chance(3, 4) {
 			g.nextRel++
 			g.rels[g.nextRel] = t
 			g.do(fmt.Sprintf("v2.fault relup %d %d", g.nextRel, t))
@@ -238,7 +321,7 @@ func Generate(r *rng.R, p Profile) fw.Case {
 		steps++
 		switch {
 		case g.nTx < sets && (len(g.queue) == 0 || r.Chance(1, 6)):
-			if p.Rollbacks && g.nTx > 0 && r.Chance(1, 4) {
+			if p.Rollbacks && !g.clean && g.nTx > 0 && r.Chance(1, 4) {
 				g.do(fmt.Sprintf("v2.rollback %d", r.Range(1, g.nTx+1)))
 				g.nTx++
 				g.enqueue(fmt.Sprintf("tx:%d", g.nTx))
@@ -246,7 +329,7 @@ func Generate(r *rng.R, p Profile) fw.Case {
 			} else {
 				g.newSet()
 			}
-		case p.Faults && r.Chance(1, 12):
+		case p.Faults && (r.Chance(1, 12) || (p.FaultBias && r.Chance(1, 6))):
 			g.fault()
 		case len(g.queue) > 0:
 			i := r.Intn(len(g.queue))
@@ -263,7 +346,39 @@ func Generate(r *rng.R, p Profile) fw.Case {
 			steps = p.MaxSteps
 		}
 	}
-	g.do("v2.state")
+	if p.Drain {
+		// reconnect everything, then let the controllers run to their fixed point
+		hasRel := map[int]bool{}
+		for id, t := range g.rels {
+			hasRel[t] = true
+			g.do(fmt.Sprintf("v2.fault connup %d", id))
+		}
+		var ts []string
+		for _, t := range g.targets {
+			if !hasRel[t] {
+				g.nextRel++
+				g.rels[g.nextRel] = t
+				g.do(fmt.Sprintf("v2.fault relup %d %d", g.nextRel, t))
+			}
+			ts = append(ts, strconv.Itoa(t))
+		}
+		g.do("v2.drain " + strings.Join(ts, " "))
+		if p.Twice {
+			first := append([]string{}, g.script...)
+			for _, ln := range first {
+				f := strings.Fields(ln)
+				var keep []string
+				for _, x := range f {
+					if !strings.HasPrefix(x, "inject=") {
+						keep = append(keep, x)
+					}
+				}
+				g.do(strings.Join(keep, " "))
+			}
+		}
+	} else {
+		g.do("v2.state")
+	}
 	var tags []string
 	for t := range g.tags {
 		tags = append(tags, t)
